@@ -41,7 +41,13 @@ import (
 	"github.com/mgtv-tech/redis-GunYu/syncer"
 )
 
-var schedKinds = []string{"none", "moved-between", "moved-mid", "ask", "back-forth", "node-added", refreshMidBuild, connReset, connLost}
+var schedKinds = []string{"none", "moved-between", "moved-mid", "ask", "back-forth", "node-added", refreshMidBuild, connReset, connLost, abandonedWorker}
+
+// abandonedWorker: one batch spans two nodes; node X resets the connection at once, node Y
+// executes the first command of its share and then stalls.  The tool reports the failure and is
+// restarted from the stored position (as its input loop does); the stall is released once the
+// restarted run has applied a newer write to Y's key (see abandonPlan).
+const abandonedWorker = "abandoned-node-worker"
 
 // connLost: the second connection fault: a node applies a complete (small) pipelined node batch —
 // not the first one it got from this client — and closes the connection before writing any
@@ -126,6 +132,14 @@ func genCase(i int, r *rand.Rand) caseCfg {
 		c.NCmds = 40 + r.Intn(80)
 		c.BufSize = 64 * 1024
 	}
+	if c.Sched == abandonedWorker {
+		// a batch spanning two nodes exists only behind the non-transactional sender (a
+		// transactional one talks to a single shard), and only the blocking one runs node
+		// workers per batch
+		c.Txn, c.Pipeline = false, false
+		c.NCmds = 30 + r.Intn(40)
+		c.BufSize = 64 * 1024
+	}
 	if c.Sched == connReset {
 		// one flush must carry the whole big batch.  Transactional mode: the batch is a source
 		// MULTI…EXEC group, which no ticker cuts.  Non-transactional mode: the batch is flushed by
@@ -166,6 +180,7 @@ func main() {
 	run.Assume("schedule refresh-mid-build (blocking non-transactional sender only): after the victim slot migrated, a lone write on it is answered MOVED and makes the client request a fresh slot table; the double holds that CLUSTER SLOTS reply back until it sees the COMMAND GETKEYS request the client issues while building the next batch — the stream carries one EXISTS (a command outside the client's key table, not something a master propagates) between the writes on the victim key for that purpose — then waits 4 ms before answering; the old owner answers every request 1 ms late. Delays only shape the interleaving, the verdict is the per-key order oracle's")
 	run.Assume("schedule conn-reset (a connection fault, at the edge of the property's quantifier): a node executes the first k (1–12) commands of a 12–14 MB node batch (64 KiB values; more than the loop-back socket buffers take in, so the client is still writing), then closes the connection with the rest unread (the kernel resets it); later connections are served normally. Expected: the run ends with a reported error and, in transactional mode, no id is applied twice; in non-transactional mode a re-sent batch (repeat from an earlier position) is allowed by the statement")
 	run.Assume("schedule conn-lost-before-reply (connection fault, edge of the quantifier): a node that already served earlier node batches of this client executes a complete small pipelined node batch (2–8 non-idempotent writes, one TCP segment) and closes the connection without having written a reply; later connections are served normally. Expected: reported connection error, nothing applied twice in transactional mode")
+	run.Assume("schedule abandoned-node-worker (blocking non-transactional sender; connection fault, edge of the quantifier): in one batch spanning two nodes, node X closes the connection on the first request of its share and node Y executes the first command of its share and then stops serving that connection; the reported failure is followed by the tool's restart sequence (bookkeeping, StartPoint, Send from the stored position) without waiting for the double to go idle; Y's stall ends when the restarted run has applied a newer write to Y's key (or, where no restart can happen meanwhile, after 2 s — a fallback that decides nothing); connections are attributed to the run during which they were opened")
 	run.Assume("quiescence = the sender stored the stream's end offset as resume position (it consumed every item and flushed its queue) and 4 keep-alive PING batches were served afterwards (at most 3 batches are in flight behind the dispatcher)")
 
 	harness.Parallel(n, 16, func(i int) {
@@ -228,7 +243,19 @@ type lostPlan struct {
 	lastID   string // id of its last command: when the node has executed it, it hangs up
 }
 
+// abandonPlan describes the scripted part of an abandoned-node-worker stream.
+type abandonPlan struct {
+	x, y     int             // node X resets, node Y stalls
+	offBatch int64           // start of the two-node batch (everything before is applied first)
+	offLater int64           // end of that batch
+	batchLen int             // its commands (= BatchCmdCount of the case)
+	xIDs     map[string]bool // ids of X's share
+	newerY   map[string]bool // ids of the later writes on Y's key: applying one releases the stall
+	keyY     string
+}
+
 type workload struct {
+	aban   *abandonPlan
 	mid    *midBuild
 	reset  *resetPlan
 	lost   *lostPlan
@@ -421,6 +448,56 @@ func genWorkload(r *rand.Rand, cc caseCfg, tags []*tagT, hist string) *workload 
 		default:
 			write(-1)
 		}
+	}
+	if cc.Sched == abandonedWorker {
+		byNode := map[int][]*tagT{}
+		var nodes []int
+		for _, t := range tags {
+			if len(byNode[t.node]) == 0 {
+				nodes = append(nodes, t.node)
+			}
+			byNode[t.node] = append(byNode[t.node], t)
+		}
+		sort.Ints(nodes)
+		xi := r.Intn(len(nodes))
+		yi := (xi + 1 + r.Intn(len(nodes)-1)) % len(nodes)
+		tx := byNode[nodes[xi]][r.Intn(len(byNode[nodes[xi]]))]
+		ty := byNode[nodes[yi]][r.Intn(len(byNode[nodes[yi]]))]
+		p := &abandonPlan{x: nodes[xi], y: nodes[yi], xIDs: map[string]bool{}, newerY: map[string]bool{}, keyY: ty.key("s1")}
+		// both nodes have served this client before
+		strWrite(tx, "s1")
+		strWrite(ty, "s1")
+		// the two-node batch: several writes on ONE key of Y, interleaved with X's share
+		p.offBatch = int64(len(st.Bytes))
+		n0 := len(st.Cmds)
+		// (X's share opens the batch in half of the cases: node workers are awaited in the
+		// order in which their nodes first appear in the batch)
+		if r.Intn(2) == 0 {
+			p.xIDs[strWrite(tx, "s1").id] = true
+			strWrite(ty, "s1")
+		} else {
+			strWrite(ty, "s1")
+			p.xIDs[strWrite(tx, "s1").id] = true
+		}
+		for i, n := 0, 2+r.Intn(3); i < n; i++ {
+			strWrite(ty, "s1")
+			if r.Intn(2) == 0 {
+				p.xIDs[strWrite(tx, "s2").id] = true
+			}
+		}
+		p.batchLen = len(st.Cmds) - n0
+		p.offLater = int64(len(st.Bytes))
+		// later: newer writes on Y's key, then an ordinary tail
+		for i, n := 0, 1+r.Intn(3); i < n; i++ {
+			write(-1)
+		}
+		for i, n := 0, 1+r.Intn(3); i < n; i++ {
+			p.newerY[strWrite(ty, "s1").id] = true
+		}
+		for i, n := 0, 5+r.Intn(10); i < n; i++ {
+			write(-1)
+		}
+		w.aban = p
 	}
 	if cc.Sched == connLost {
 		// a few earlier commands on the node (so that the victim batch is not the first node batch
@@ -775,7 +852,20 @@ func oneCase(run *harness.Run, key string, idx int, r *rand.Rand, cc caseCfg) {
 	var relOnce sync.Once
 	releaseRefresh := func() { relOnce.Do(func() { close(release) }) }
 	defer releaseRefresh()
-	if cc.SlowRefresh || cc.Sched == refreshMidBuild {
+	// abandoned-node-worker: node Y stalls after the first command of its share
+	var stallNode atomic.Int64
+	stallNode.Store(-1)
+	var stallArmed, stallHeld, stallByEvent atomic.Bool
+	stallRelease := make(chan struct{})
+	var stallOnce sync.Once
+	releaseStall := func(byEvent bool) {
+		stallOnce.Do(func() {
+			stallByEvent.Store(byEvent)
+			close(stallRelease)
+		})
+	}
+	defer releaseStall(false)
+	if cc.SlowRefresh || cc.Sched == refreshMidBuild || cc.Sched == abandonedWorker {
 		// back-pressure only (never a verdict): topology replies take 0–2 ms, so the client's
 		// asynchronous slot-table refresh lands at varying points of the following batches
 		// ...and one node answers every request late, so that a pipelined sender really has
@@ -799,6 +889,20 @@ func oneCase(run *harness.Run, key string, idx int, r *rand.Rand, cc caseCfg) {
 						releaseRefresh()
 						time.Sleep(4 * time.Millisecond) // let the refresh goroutine install the new table
 					}
+				case cc.Sched == abandonedWorker && i == stallNode.Load() && (cmd == "SET" || cmd == "APPEND") && stallArmed.Load():
+					// the reply to the first command of Y's share is held back — and with it the
+					// execution of the rest of the share, which waits in this connection's input —
+					// until the restarted run has applied a newer write to Y's key (logical event).
+					// On a tree whose Exec waits for every node worker no restart can happen while
+					// the stall lasts: there the 2 s fallback ends it (it decides nothing).
+					if stallHeld.CompareAndSwap(false, true) {
+						select {
+						case <-stallRelease:
+						case <-time.After(2 * time.Second):
+							releaseStall(false)
+						}
+					}
+				case cmd == "CLUSTER" && !cc.SlowRefresh:
 				case cmd == "CLUSTER":
 					time.Sleep(time.Duration(n.Add(1)*7919%21) * 100 * time.Microsecond)
 				case i == slowNode.Load() && cc.Sched == refreshMidBuild:
@@ -868,6 +972,9 @@ func oneCase(run *harness.Run, key string, idx int, r *rand.Rand, cc caseCfg) {
 	cfg.UpdateCheckpointTicker = cc.CpTicker
 	if w.lost != nil {
 		cfg.BatchCmdCount = uint(w.lost.batchLen) // the victim batch goes out when it is complete
+	}
+	if w.aban != nil {
+		cfg.BatchCmdCount = uint(w.aban.batchLen) // the two-node batch goes out when it is complete
 	}
 	if w.reset != nil {
 		cfg.BatchCmdCount = uint(w.reset.batchLen) // the big batch goes out in one flush
@@ -1044,6 +1151,42 @@ func oneCase(run *harness.Run, key string, idx int, r *rand.Rand, cc caseCfg) {
 		plan = append(drive.Plan(r, st.Bytes[:cutOff], cc.PauseUnit, cc.PlanStyle),
 			drive.Step{Gate: gate})
 		plan = append(plan, drive.Plan(r, st.Bytes[cutOff:], cc.PauseUnit, cc.PlanStyle)...)
+	} else if p := w.aban; p != nil {
+		// everything before the two-node batch | gate: both faults armed | the batch in one piece
+		// | the rest.  X closes the connection on the first request of its share; Y stalls after
+		// the first command of its share (ReplyDelay above).
+		before := map[string]bool{}
+		for _, x := range w.writes {
+			if st.Cmds[x.cmd].Start < p.offBatch {
+				before[x.id] = true
+			}
+		}
+		part1 := waitApplied(before)
+		gate := make(chan struct{})
+		stallNode.Store(int64(p.y))
+		cl.Node(p.x).SetHooks(nil, nil, func(q *fakeredis.Req) bool {
+			if !resetArmed.Load() || !p.xIDs[gen.FindID(q.Args)] {
+				return false
+			}
+			resetArmed.Store(false)
+			resetFired.Store(true)
+			return true
+		})
+		// a newer write on Y's key applied (by the restarted run) releases the stall
+		hooks = append(hooks, func(id string) {
+			if p.newerY[id] && stallHeld.Load() {
+				releaseStall(true)
+			}
+		})
+		go func() {
+			<-part1
+			stallArmed.Store(true)
+			resetArmed.Store(true)
+			close(gate)
+		}()
+		plan = append(drive.Plan(r, st.Bytes[:p.offBatch], cc.PauseUnit, cc.PlanStyle), drive.Step{Gate: gate},
+			drive.Step{Data: st.Bytes[p.offBatch:p.offLater]})
+		plan = append(plan, drive.Plan(r, st.Bytes[p.offLater:], cc.PauseUnit, cc.PlanStyle)...)
 	} else if p := w.lost; p != nil {
 		// everything before the victim batch | gate: the fault is armed | the victim batch in one
 		// piece | tail.  The node executes the node batch up to and including its last command and
@@ -1149,49 +1292,77 @@ func oneCase(run *harness.Run, key string, idx int, r *rand.Rand, cc caseCfg) {
 	}
 
 	cl.SetOnApplied(onApplied)
-	ar := ss.SendAof(ctx, sp.Offset, plan, false, cc.BufSize)
-
-	// quiescence (logical): the sender stored the end offset of the stream as resume position —
-	// it has consumed every item and flushed its queue — and 4 keep-alive batches were served
-	// after that (at most 3 batches are in flight behind the dispatcher)
-	quiet := make(chan struct{})
-	stopQ := make(chan struct{})
-	go func() {
-		select {
-		case <-cpAtEnd:
-		case <-stopQ:
-			return
-		}
-		from := pings.Load()
-		for pings.Load() < from+4 {
+	// await: one tool run until it is quiescent (logical: the sender stored the end offset of the
+	// stream as resume position — it has consumed every item and flushed its queue — and 4
+	// keep-alive batches were served after that; at most 3 batches are in flight behind the
+	// dispatcher) or until Send returns by itself
+	await := func(ar *drive.AofRun) (outcome, bool) {
+		quiet := make(chan struct{})
+		stopQ := make(chan struct{})
+		defer close(stopQ)
+		go func() {
 			select {
-			case <-pingCh:
+			case <-cpAtEnd:
 			case <-stopQ:
 				return
 			}
+			from := pings.Load()
+			for pings.Load() < from+4 {
+				select {
+				case <-pingCh:
+				case <-stopQ:
+					return
+				}
+			}
+			close(quiet)
+		}()
+		var oc outcome
+		select {
+		case <-quiet:
+			oc.kind = "completed"
+			if _, ok := ar.Stop(60 * time.Second); !ok {
+				run.Inconclusive("%s: Send did not return after cancel", key)
+				return oc, false
+			}
+		case e := <-ar.Done:
+			oc.kind, oc.err = "error", e
+			ar.F.Abort()
+		case <-time.After(45 * time.Second):
+			ar.Stop(10 * time.Second)
+			run.Inconclusive("%s: watchdog: neither quiescent nor ended (handed %d bytes, %d pings) [%s]", key, ar.F.Handed(), pings.Load(), cc)
+			return oc, false
 		}
-		close(quiet)
-	}()
-
-	var oc outcome
-	select {
-	case <-quiet:
-		oc.kind = "completed"
-		if _, ok := ar.Stop(60 * time.Second); !ok {
-			close(stopQ)
-			run.Inconclusive("%s: Send did not return after cancel", key)
-			return
-		}
-	case e := <-ar.Done:
-		oc.kind, oc.err = "error", e
-		ar.F.Abort()
-	case <-time.After(45 * time.Second):
-		ar.Stop(10 * time.Second)
-		close(stopQ)
-		run.Inconclusive("%s: watchdog: neither quiescent nor ended (handed %d of %d bytes, %d pings) [%s]", key, ar.F.Handed(), len(st.Bytes), pings.Load(), cc)
+		return oc, true
+	}
+	ar := ss.SendAof(ctx, sp.Offset, plan, false, cc.BufSize)
+	oc, ok := await(ar)
+	if !ok {
 		return
 	}
-	close(stopQ)
+	// abandoned-node-worker: the reported failure is followed by what the tool's input loop does —
+	// start-up bookkeeping, StartPoint, Send from the stored position — WITHOUT waiting for the
+	// double to go idle: whatever the first run left behind is still on its way
+	restartReq := int64(-1)
+	var firstErr error
+	if w.aban != nil && oc.kind == "error" {
+		firstErr = oc.err
+		restartReq = cl.ReqCount()
+		ss2, err := drive.NewSession(cfg, ids)
+		if err != nil {
+			run.Inconclusive("%s: restart: session: %v", key, err)
+			return
+		}
+		sp2, err := ss2.Out.StartPoint(ctx, ids)
+		if err != nil || sp2.Offset < base || sp2.Offset > endOff {
+			run.Inconclusive("%s: restart: startpoint %v %v", key, sp2, err)
+			return
+		}
+		rest := st.Bytes[sp2.Offset-base:]
+		ar2 := ss2.SendAof(ctx, sp2.Offset, drive.Plan(r, rest, cc.PauseUnit, cc.PlanStyle), false, cc.BufSize)
+		if oc, ok = await(ar2); !ok {
+			return
+		}
+	}
 	// a Send that returns by itself — with whatever error, or none — makes the input loop call
 	// StartPoint and Send again: it resumes from the stored position
 	if !cl.WaitIdle(300*time.Millisecond, 20*time.Second) {
@@ -1214,6 +1385,24 @@ func oneCase(run *harness.Run, key string, idx int, r *rand.Rand, cc caseCfg) {
 		gseq int64
 		greq int64
 		node int
+		run  int // 1, or 2 when the connection that carried it was opened after the restart
+	}
+	// connections are attributed to the tool run during which they were opened
+	connRun := func(node int, conn int64) int { return 1 }
+	if restartReq >= 0 {
+		first := map[[2]int64]int64{}
+		for _, q := range reqs {
+			k := [2]int64{int64(q.Node), q.Conn}
+			if _, ok := first[k]; !ok {
+				first[k] = q.GReq
+			}
+		}
+		connRun = func(node int, conn int64) int {
+			if first[[2]int64{int64(node), conn}] > restartReq {
+				return 2
+			}
+			return 1
+		}
 	}
 	// what the double answered to the requests carrying an id (in request order)
 	idReplies := map[string][]fakeredis.CReq{}
@@ -1275,7 +1464,7 @@ func oneCase(run *harness.Run, key string, idx int, r *rand.Rand, cc caseCfg) {
 		idCount[id]++
 		nodesUsed[a.Node] = true
 		for _, k := range x.keys {
-			posOf[k] = append(posOf[k], seen{w.pos[k][id], a.GSeq, a.GReq, a.Node})
+			posOf[k] = append(posOf[k], seen{w.pos[k][id], a.GSeq, a.GReq, a.Node, connRun(a.Node, a.Conn)})
 		}
 	}
 	redir := cl.Redirects()
@@ -1392,6 +1581,28 @@ func oneCase(run *harness.Run, key string, idx int, r *rand.Rand, cc caseCfg) {
 		run.Count("violations["+sig+"]", 1)
 		run.Violation(sig, caseKey, what, wt)
 	}
+	// clause 1b (runs that were restarted): what a previous run left behind must not take effect
+	// after the restarted run has applied something newer to the key — that is an old write
+	// overwriting a new one, not the repetition of a suffix
+	lateFlagged := map[string]bool{}
+	if restartReq >= 0 {
+		for _, k := range allKeys {
+			maxByRun2 := -1
+			for _, a := range posOf[k] {
+				if a.run == 2 && a.p > maxByRun2 {
+					maxByRun2 = a.p
+				}
+				if a.run == 1 && a.p < maxByRun2 {
+					lateFlagged[k] = true
+					viol(fmt.Sprintf("order|inversion|%s|jumped-over=ok|successor=previous-run-connection|run=acknowledged|after=abandoned-node-worker", modeSig(cc)), key,
+						fmt.Sprintf("key %q: command #%d (of %d) took effect on a connection of the FIRST run (ended with %q) after the restarted run had already applied #%d — an abandoned node worker delivered late; final outcome %s [schedule %s]",
+							k, a.p, len(w.seq[k]), errClass(firstErr), maxByRun2, oc.kind, cc.Sched),
+						witness(k, a.p))
+					break
+				}
+			}
+		}
+	}
 	// clause 1: per-key order
 	keysChecked := 0
 	for _, k := range allKeys {
@@ -1399,6 +1610,9 @@ func oneCase(run *harness.Run, key string, idx int, r *rand.Rand, cc caseCfg) {
 		keysChecked++
 		got := posOf[k]
 		prev := -1
+		if lateFlagged[k] {
+			continue
+		}
 		for j, s := range got {
 			if s.p > prev+1 {
 				cls := "skip"
@@ -1528,6 +1742,18 @@ func oneCase(run *harness.Run, key string, idx int, r *rand.Rand, cc caseCfg) {
 	}
 	if n := tryAgainSettled.Load(); n > 0 {
 		run.Count("ask_windows_closed_right_after_a_TRYAGAIN", n)
+	}
+	if w.aban != nil {
+		run.Count("abandoned_worker_runs", 1)
+		if resetFired.Load() && stallHeld.Load() {
+			run.Count("abandoned_worker_node_X_reset_and_node_Y_stalled", 1)
+		}
+		if restartReq >= 0 {
+			run.Count("abandoned_worker_tool_restarted_from_stored_position", 1)
+		}
+		if stallByEvent.Load() {
+			run.Count("abandoned_worker_stall_released_by_newer_write_of_restarted_run", 1)
+		}
 	}
 	if w.lost != nil {
 		run.Count("conn_lost_before_reply_runs", 1)
